@@ -19,8 +19,26 @@ type Harness struct {
 	in     io.WriteCloser
 	out    *bufio.Reader
 	mu     sync.Mutex
-	stderr *strings.Builder
+	stderr *lockedBuf
 	dead   bool
+}
+
+// lockedBuf collects the process's stderr; exec copies into it from its own goroutine.
+type lockedBuf struct {
+	mu sync.Mutex
+	b  strings.Builder
+}
+
+func (l *lockedBuf) Write(p []byte) (int, error) {
+	l.mu.Lock()
+	defer l.mu.Unlock()
+	return l.b.Write(p)
+}
+
+func (l *lockedBuf) String() string {
+	l.mu.Lock()
+	defer l.mu.Unlock()
+	return l.b.String()
 }
 
 // StartHarness launches the harness binary and waits for it to be ready.
@@ -35,7 +53,7 @@ func StartHarness(bin string, env ...string) (*Harness, error) {
 	if err != nil {
 		return nil, err
 	}
-	h := &Harness{cmd: cmd, in: in, out: bufio.NewReaderSize(outp, 1<<20), stderr: &strings.Builder{}}
+	h := &Harness{cmd: cmd, in: in, out: bufio.NewReaderSize(outp, 1<<20), stderr: &lockedBuf{}}
 	cmd.Stderr = h.stderr
 	if err := cmd.Start(); err != nil {
 		return nil, err
